@@ -56,16 +56,16 @@ def run(ctx):
         jobs = 4
     else:
         dense = 20
-        special = [100, 127, 128, 129, 255, 256, 257, 300]
-        larger = sorted(rng.sample(range(301, 6000), 6))
-        sizes = list(range(0, 301)) + larger
+        special = [127, 128, 129, 200, 255, 256, 257, 300]
+        larger = sorted(rng.sample(range(301, 3000), 4))
+        sizes = list(range(0, 101)) + special + larger
         all_kinds_sizes = set(range(0, 71)) | set(special) | set(larger)
         mutable_sample = None
         jobs = 6
         ctx.notes.append("random larger sizes (seed %d): %s" % (ctx.seed, larger))
     cfg = ("SPECIFICATION Spec\nCONSTANTS\n  Sizes = %s\n  DenseMax = %d\n  SegSize = %d\n" % (tla_set(sizes), dense, seg)
            + "".join("INVARIANT %s\n" % i for i in INVS))
-    ctx.constants.update({"Sizes": "0..10, 56, 70" if ctx.quick else "0..300 + %s" % larger, "DenseMax": dense,
+    ctx.constants.update({"Sizes": "0..10, 56, 70" if ctx.quick else "0..100, %s, %s" % (special, larger), "DenseMax": dense,
                           "SegSize": seg, "values": "sizes <= DenseMax: every first/last/suffix value in -1..DenseMax+2; "
                           "larger sizes: {-1,0,1,SegSize-1..SegSize+1,size/2,size-2..size+2,size+40,2*size}"})
     cases, r = ctx.gen("frontends/WebRange", cfg, timeout=1500)
@@ -91,7 +91,7 @@ def run(ctx):
                 add(ci, "sdmf", vias[(ci + 1 + ctx.seed) % len(vias)])
                 add(ci, "mdmf", vias[(ci + 2 + ctx.seed) % len(vias)])
         else:
-            # thorough, the remaining sizes 71..300: one file kind per size, rotating
+            # thorough, the remaining sizes 71..100: one file kind per size, rotating
             add(ci, ("imm", "sdmf", "mdmf")[c["size"] % 3], "uri")
     if mutable_sample is not None:
         # quick: the mutable formats get a class-stratified seeded sample of the same table
